@@ -4,6 +4,8 @@ from . import serial, bytesacct
 
 def run(ctx):
     from . import pyrules
+    pyrules.rule_selector_truthiness(ctx, 'R06.11', ('Simulation', 'Simulationarchive'))   # snapshot 0 is restored as snapshot 0
+    from . import pyrules
     pyrules.rule_undefined_names(ctx, 'R18.11')     # the file constructors can be called
     pyrules.rule_keyword_constructor(ctx, 'R05.13')  # Simulation(filename=...) reads the file
     serial.rule_zeroed_particle_arrays(ctx)     # R05.12: persisted particle arrays contain no bytes nobody computed
